@@ -28,6 +28,8 @@ export const STATEMENTS = {
   vslotsFn: (N) => `export const ${N} = () => <A0 v-slots={{ x: () => [g0] }}>{() => [f0()]}</A0>;`,
   textAndPragmaLike: (N) => `export const ${N} = () => <div>  a  {g0} b </div>;`,
   boundTagParam: (N) => `import ${N}_C from "probe:kid";\nexport function ${N}(Pq = ${N}_C) { return <Pq x={g0}>t</Pq>; }`,
+  reassignModuleLevelVar: (N) => `import ${N}_Box from "probe:kid";\nvar ${N}_x = "prev";\n${N}_x = <${N}_Box>{${N}_x}</${N}_Box>;\nexport const ${N} = () => ${N}_x;`,
+  paramNamedH: (N) => `import ${N}_C from "probe:kid";\nexport const ${N} = () => ((Box, h) => <Box>{h()}</Box>)(${N}_C, () => g0);`,
   reassignShared: (N) => `let shared = "prev";\nexport const ${N} = () => { shared = <A0>{shared}</A0>; return shared; };`,
   divCallChild: (N) => `export const ${N} = () => <div>{f0()}</div>;`,
   spanIdentChild: (N) => `export const ${N} = () => <span>{g0}</span>;`,
@@ -74,6 +76,8 @@ export const DISTRACTORS = {
   stringStatement: (k) => `"marker ${k}";`,
   reassignSharedElsewhere: (k) => `function d${k}rs() { shared = <A9>{shared}</A9>; return shared; }`,
   lateFragmentImport: (k) => `import { Fragment } from "vue";\nconst d${k}fr = Fragment;`,
+  fragWithLocalIdent: (k) => `let d${k}li = 1;\nconst d${k}fi = <>{d${k}li}</>;\nfunction d${k}ff(Row, rows) { return <><Row>{rows}</Row></>; }`,
+  vueHImport: (k) => `import { h } from "vue";\nconst d${k}hh = [h];`,
   trivialArrows: (k) => `const d${k}n = () => null, d${k}i = () => g8, d${k}t = () => "s", d${k}u = () => undefined;`,
   memberHtmlTagUse: (k) => `import * as d${k}ns from "probe:ns2";\nconst d${k}mt = () => [<d${k}ns.div>{g8}</d${k}ns.div>, <d${k}ns.span>{g9()}</d${k}ns.span>];`,
   plainHtmlWithCall: (k) => `const d${k}ph = () => [<div>{g9()}</div>, <span>{g8}</span>];`,
@@ -94,14 +98,14 @@ const ENV = {
   globals: {
     f0: { v: { k: 'fn', id: 'f0', ret: { k: 'str', v: 'r0' } }, log: true }, f1: { v: { k: 'fn', id: 'f1', ret: { k: 'vnode', id: 'vn1' } }, log: true },
     g0: { v: { k: 'str', v: 'G0' }, log: true }, g1: { v: { k: 'fn', id: 'g1' }, log: false }, g2: { v: { k: 'obj', v: { title: { k: 'str', v: 'T' }, class: { k: 'str', v: 'sc' } } }, log: true },
-    g8: { v: { k: 'str', v: 'G8' }, log: false }, g9: { v: { k: 'fn', id: 'g9', ret: { k: 'str', v: 'r9' } }, log: false },
+    g8: { v: { k: 'str', v: 'G8' }, log: false }, pragmaH: { v: { k: 'factory', id: 'pragma:pragmaH' }, log: false }, g9: { v: { k: 'fn', id: 'g9', ret: { k: 'str', v: 'r9' } }, log: false },
   },
   modules: { 'probe:kid': { default: { k: 'vnode', id: 'kidv' } }, 'probe:ns2': { div: { k: 'comp', id: 'ns2.div' }, span: { k: 'comp', id: 'ns2.span' } } },
 };
 
 function compose(parts) { return parts.filter((p) => p !== '').join('\n') + '\n'; }
 
-const OPTS = [{}, { optimize: true }, { optimize: true, transformOn: true, enableObjectSlots: false }, { transformOn: true, mergeProps: false }];
+const OPTS = [{}, { optimize: true }, { optimize: true, transformOn: true, enableObjectSlots: false }, { transformOn: true, mergeProps: false }, { pragma: 'pragmaH', enableObjectSlots: false }];
 
 export function* generate({ tier, seed }) {
   const rng = mulberry32(seed * 982451653 + 41);
@@ -109,12 +113,12 @@ export function* generate({ tier, seed }) {
   const stmts = Object.keys(STATEMENTS), ds = Object.keys(DISTRACTORS);
   const emit = (names, pre, suf, opts) => {
     // a module can import { Fragment } by that name only once
-    { let seenF = false; const once = (d) => { if (d !== 'lateFragmentImport') return true; if (seenF) return false; seenF = true; return true; }; pre = pre.filter(once); suf = suf.filter(once); if (!pre.length) pre = ['none']; if (!suf.length) suf = ['none']; }
+    { const seenS = new Set(); const once = (d) => { if (d !== 'lateFragmentImport' && d !== 'vueHImport') return true; if (seenS.has(d)) return false; seenS.add(d); return true; }; pre = pre.filter(once); suf = suf.filter(once); if (!pre.length) pre = ['none']; if (!suf.length) suf = ['none']; }
     // names: list of statement families (1 or 2); alone module = the statements only
     const innerOf = (i) => ({ before: rng.bool(0.5) ? rng.pick(INNER)(`b${i}`) : '', after: rng.pick(INNER)(`a${i}`) });
     const srcs = names.map((s, i) => STATEMENTS[s](`s${i}`, innerOf(i)));
     const alone = names.map((s, i) => compose([STATEMENTS[s](`s${i}`, {})]));
-    const composed = compose([...pre.map((d, i) => DISTRACTORS[d](`p${i}`)), ...srcs.flatMap((s, i) => (i === 0 ? [s] : [DISTRACTORS[suf[0] && suf[0] !== 'lateFragmentImport' ? suf[0] : 'none'](`m${i}`), s])), ...suf.map((d, i) => DISTRACTORS[d](`q${i}`))]);
+    const composed = compose([...pre.map((d, i) => DISTRACTORS[d](`p${i}`)), ...srcs.flatMap((s, i) => (i === 0 ? [s] : [DISTRACTORS[suf[0] && suf[0] !== 'lateFragmentImport' && suf[0] !== 'vueHImport' ? suf[0] : 'none'](`m${i}`), s])), ...suf.map((d, i) => DISTRACTORS[d](`q${i}`))]);
     const typed = names.includes('dcTyped');
     if (typed) opts = { ...opts, resolveType: true };
     // the import of defineComponent leads the composed module, so that prefix distractors (other imports from 'vue' among them) sit between it and the call
